@@ -1475,7 +1475,9 @@ func (p *Parser) attachSiblingsAsArgs(parentObj, targetObj *Object, numArgs uint
 		siblingObj = p.objTree.ObjectAt(siblingIndex)
 		siblingIndex = siblingObj.nextSiblingIndex
 
-		p.objTree.detach(parentObj, siblingObj)
+		// siblingObj may be a sibling of parentObj (see useParentSiblings)
+		// so it must be detached from the object that actually owns it.
+		p.objTree.detach(p.objTree.ObjectAt(siblingObj.parentIndex), siblingObj)
 		p.objTree.append(targetObj, siblingObj)
 	}
 	return parseResultOk
